@@ -553,6 +553,8 @@ struct Ev {
     mval: MVal,
     agg: Option<&'static str>,
     payload: usize,
+    /// incompressible filler (so that gzip output stays large) instead of a repetitive one
+    noisy: bool,
 }
 
 fn route(ev: &Ev, signals: &BTreeSet<Signal>) -> Option<Signal> {
@@ -577,10 +579,21 @@ fn emit_one(otlp: &emit_otlp::Otlp, ev: &Ev, n: u64) {
         Ext::Point => Some(emit::Extent::point(ts)),
         Ext::Range => Some(emit::Extent::range(ts..ts2)),
     };
-    let filler: String = if ev.payload > 0 {
-        "abcdefghijklmnopqrstuvwxyz0123456789".chars().cycle().take(ev.payload).collect()
-    } else {
+    let filler: String = if ev.payload == 0 {
         String::new()
+    } else if ev.noisy {
+        let mut x = 0x9E37_79B9_7F4A_7C15u64 ^ (n + 1).wrapping_mul(0xD1B5_4A32_D192_ED03);
+        let alphabet = b"abcdefghijklmnopqrstuvwxyzABCDEFGHIJKLMNOPQRSTUVWXYZ0123456789+/";
+        (0..ev.payload)
+            .map(|_| {
+                x ^= x << 13;
+                x ^= x >> 7;
+                x ^= x << 17;
+                alphabet[(x >> 58) as usize] as char
+            })
+            .collect()
+    } else {
+        "abcdefghijklmnopqrstuvwxyz0123456789".chars().cycle().take(ev.payload).collect()
     };
     let seq = [1.0f64, 2.0, 3.5];
     let trace_id = emit::TraceId::from_u128(0x0123_4567_89ab_cdef_0123_4567_89ab_cdefu128 + n as u128).unwrap();
@@ -707,7 +720,15 @@ impl Engine for OtlpSim {
             } else {
                 MVal::Number
             };
-            let payload = if big { 100_000 + ch.choose(200_000) as usize } else { ch.choose(200) as usize };
+            let medium = !c14 && !big && ch.chance(1, 10);
+            let payload = if big {
+                100_000 + ch.choose(200_000) as usize
+            } else if medium {
+                30_000 + ch.choose(60_000) as usize
+            } else {
+                ch.choose(200) as usize
+            };
+            let noisy = (big || medium) && ch.chance(1, 2);
             let agg = if c14 {
                 *ch.pick(&[Some("count"), Some("sum"), Some("last"), Some("min"), Some("max"), None, Some("bogus")])
             } else {
@@ -720,6 +741,7 @@ impl Engine for OtlpSim {
                 mval,
                 agg,
                 payload,
+                noisy,
             });
         }
         // client program
@@ -814,7 +836,7 @@ impl Engine for OtlpSim {
                                     sc.set_nonblocking(None);
                                     emitted += 1;
                                     clog.lock().unwrap().emitted.push((i, sc.now()));
-                                    sc.log(format!("emitted {} ({:?}/{:?}/{:?}/agg {:?}, {} payload bytes)", events[i].marker, events[i].kind, events[i].ext, events[i].mval, events[i].agg, events[i].payload));
+                                    sc.log(format!("emitted {} ({:?}/{:?}/{:?}/agg {:?}, {} payload bytes{})", events[i].marker, events[i].kind, events[i].ext, events[i].mval, events[i].agg, events[i].payload, if events[i].noisy { ", incompressible" } else { "" }));
                                 }
                                 Step::Sleep(ms) => sc.sleep(Duration::from_millis(ms)),
                                 Step::Flush(ms) => {
